@@ -434,22 +434,29 @@ def codec(ck, ctx, rule="codec"):
     # reader dispatch: tag clear -> path(len), tag set -> build(len & !mask)
     R = ctx.res(rr)
     okd = False
-    for sbb, st, e in Q.switches(ctx, rr):
-        e_ = strip(e)
-        if e_[0] == "bin" and e_[1] == "Eq" and e_[3] == ("const", 0) and strip(e_[2])[0] == "bin" and strip(e_[2])[1] == "BitAnd":
-            tl, fl = Q.bool_edges(st)
-            cfg = ctx.cfg(rr)
-            hdr_ = [cfg.enclosing_loop_header(sbb)] if cfg.enclosing_loop_header(sbb) is not None else []
-            rt = cfg.reach_avoid(cfg.edge_targets(sbb, tl), avoid_blocks=hdr_)
-            rf = cfg.reach_avoid(cfg.edge_targets(sbb, fl), avoid_blocks=hdr_)
-            pt = [x for x in rt if rr.blocks[x]["term"] and rr.blocks[x]["term"]["k"] == "call" and callee_of(rr.blocks[x]["term"]) == "db::Reader::read_path"]
-            bf = [x for x in rf if rr.blocks[x]["term"] and rr.blocks[x]["term"]["k"] == "call" and callee_of(rr.blocks[x]["term"]) == RB]
-            pf = [x for x in rf if rr.blocks[x]["term"] and rr.blocks[x]["term"]["k"] == "call" and callee_of(rr.blocks[x]["term"]) == "db::Reader::read_path"]
-            bt = [x for x in rt if rr.blocks[x]["term"] and rr.blocks[x]["term"]["k"] == "call" and callee_of(rr.blocks[x]["term"]) == RB]
-            okd = bool(pt) and bool(bf) and not pf and not bt
-            if okd:
-                le = strip(R.arg(bf[0], 1))
-                okd = any(y[0] == "bin" and y[1] == "BitAnd" and any(z[0] == "un" and z[1] == "Not" for z in walk(y)) for y in walk(le))
+    cfg = ctx.cfg(rr)
+
+    def is_tag_test(e):
+        return e[0] == "bin" and e[1] == "BitAnd" and (e[3] == ("const", TAG) or e[2] == ("const", TAG) or any(y == ("const", TAG) for y in walk(e)))
+
+    z_edges, nz_edges = C.zero_test_edges(ctx, rr, is_tag_test)
+    for sbb in sorted({x for x, _ in z_edges}):
+        hdr_ = [cfg.enclosing_loop_header(sbb)] if cfg.enclosing_loop_header(sbb) is not None else []
+        rt = cfg.reach_avoid([t_ for (x, lab) in z_edges if x == sbb for t_ in cfg.edge_targets(x, lab)], avoid_blocks=hdr_)
+        rf = cfg.reach_avoid([t_ for (x, lab) in nz_edges if x == sbb for t_ in cfg.edge_targets(x, lab)], avoid_blocks=hdr_)
+
+        def calls_to(r, callee):
+            return [x for x in r if rr.blocks[x]["term"] and rr.blocks[x]["term"]["k"] == "call" and callee_of(rr.blocks[x]["term"]) == callee]
+
+        pt, bf = calls_to(rt, "db::Reader::read_path"), calls_to(rf, RB)
+        pf, bt = calls_to(rf, "db::Reader::read_path"), calls_to(rt, RB)
+        okd = bool(pt) and bool(bf) and not pf and not bt
+        if okd:
+            le = strip(R.arg(bf[0], 1))
+            # the count handed to read_build has the tag bit cleared: `x & !mask` or `x & 0x7fff`
+            okd = any(y[0] == "bin" and y[1] == "BitAnd" and (any(z[0] == "un" and z[1] == "Not" for z in walk(y)) or any(z == ("const", 0xFFFF ^ TAG) for z in walk(y))) for y in walk(le))
+            pe = strip(R.arg(pt[0], 1))
+            okd = okd and not any(y[0] == "bin" and y[1] in ("BitAnd", "BitOr", "BitXor", "Shl", "Shr") for y in walk(pe))
     ck.ob(rule, "dispatch", okd, "tag clear => read_path(len); tag set => read_build(len & !mask)", span=rr.loc, fn=rr.nname)
 
 
@@ -664,93 +671,54 @@ def attribution(ck, ctx, rule="attribution"):
     ck.functions.add(RB)
     applies = [(bb, t) for bb, t in b.calls() if callee_of(t) in ("graph::Build::set_discovered_ins", "graph::Hashes::set")]
     ck.floor("record application calls in read_build", len(applies), 2)
-    # the unique-producer local: Option<BuildId> user variable
-    ub = [l for l, nm in b.names.items() if b.local_ty(l) == "std::option::Option<graph::BuildId>"]
-    ck.ob("anchor", "read_build unique producer variable", len(ub) >= 1, "an Option<BuildId> accumulator exists in read_build", nontrivial=False)
-    if not ub:
-        return
-    ubl = ub[0]
-    some_e, none_e = set(), set()
-    for x, t_, scrut, adt, vmap in Q.enum_switches(ctx, b):
-        da = Q.discr_adt(b, x, t_)
-        if da and not da[0]["p"] and da[0]["l"] == ubl:
-            # only the final test (after the loops) counts as the acceptance gate
-            some_e.add((x, vmap.get("Some")))
-            none_e.add((x, vmap.get("None")))
-    loops = cfg.loop_headers()
-    first_loop = min(loops) if loops else None
-    accept = {(x, lab) for (x, lab) in some_e if cfg.enclosing_loop_header(x) is None}
+    # acceptance table, by path-sensitive propagation with ghost bits (independent of how the accumulator / obsolete flag are spelled):
+    #   some = an output with a producer was seen, np = an output without producer was seen, mm = two outputs' producers compared unequal
+    from n2sa.flagint import FlagInt
+    APPLY = {"graph::Build::set_discovered_ins": "deps", "graph::Hashes::set": "hash"}
+
+    def hook(fi, bi, t, callee, args, vals, ghost):
+        if callee in APPLY:
+            fi.observe("apply", bi, callee, ghost)
+            return [(None, dict(ghost, **{"applied_" + APPLY[callee]: True}))]
+        if callee.endswith("BuildId as std::cmp::PartialEq>::eq"):
+            return [(("b", True), ghost), (("b", False), dict(ghost, mm=True))]
+        if callee.endswith("BuildId as std::cmp::PartialEq>::ne") or (callee == "std::cmp::PartialEq::ne" and "BuildId" in ((t["args"][0].get("place") or {}).get("ty") or {}).get("s", "")):
+            return [(("b", False), ghost), (("b", True), dict(ghost, mm=True))]
+        return None
+
+    def edge(fi, bi, sym, adt, vn, ghost):
+        if adt == "std::option::Option" and len(sym[1]) >= 4 and sym[1][2] == "fld" and sym[1][3] == "input":
+            return dict(ghost, np=True) if vn == "None" else dict(ghost, some=True)
+        return None
+
+    fi = FlagInt(F, b, hook, on_edge=edge).run()
+    ck.extra.setdefault("flagint", {})["read_build"] = dict(states_explored=fi.visited, apply_observations=len(fi.obs), returns=len(fi.rets))
+    ok_tab = not fi.capped
     for i, (bb, t) in enumerate(applies):
-        ok = Q.gated(cfg, bb, accept)[0]
-        ide = strip(R.arg(bb, 1)) if callee_of(t) == "graph::Hashes::set" else None
-        ck.ob(rule, "apply#%d|only-with-unique-producer" % i, ok, "%s is reached only when the unique-producer accumulator is Some" % callee_of(t).split("::")[-1], span=t["loc"], fn=RB)
-    # both applications happen, unconditionally, once accepted (hash and deps stay consistent)
-    starts = [tt for (x, lab) in accept for tt in cfg.edge_targets(x, lab)]
+        obs = [dict(o[3]) for o in fi.obs if o[0] == "apply" and o[1] == bb]
+        bad = [g for g in obs if not g.get("some") or g.get("np") or g.get("mm")]
+        ck.ob(rule, "apply#%d|only-with-unique-producer" % i, ok_tab and bool(obs) and not bad, "%s is reached only when every output seen had a producer and no two producers differed (%d abstract paths; offending %s)" % (callee_of(t).split("::")[-1], len(obs), bad), span=t["loc"], fn=RB)
+    oks = [dict(g) for g, rv in fi.rets if rv is not None and rv[0] == "en" and rv[2] == "Ok"]
+    clean = [g for g in oks if g.get("some") and not g.get("np") and not g.get("mm")]
     for cal in ("graph::Build::set_discovered_ins", "graph::Hashes::set"):
-        blocks = [bb for bb, t in applies if callee_of(t) == cal]
-        r = cfg.reach_avoid(starts, avoid_blocks=blocks)
-        ck.ob(rule, "accepted=>%s" % cal.split("::")[-1], bool(blocks) and bool(starts) and not (set(cfg.returns()) & r), "an accepted record always reaches %s (deps and hash are replaced together; the latest record wins)" % cal, span=b.loc, fn=RB)
-    # applied to the accumulated id, with the deps/hash read from this record
+        key = "applied_" + APPLY[cal]
+        ck.ob(rule, "accepted=>%s" % cal.split("::")[-1], ok_tab and bool(clean) and all(g.get(key) for g in clean), "a record whose outputs all have the same current producer always reaches %s before read_build returns Ok (deps and hash are replaced together; the latest record wins)" % cal, span=b.loc, fn=RB)
+    for kind, bit in (("no-producer", "np"), ("other-producer", "mm")):
+        rej = [g for g in oks if g.get(bit)]
+        ck.ob(rule, "reject|%s" % kind, ok_tab and bool(rej) and not any(g.get("applied_deps") or g.get("applied_hash") for g in rej), "a record with an output that has %s is parsed through and never applied (%d abstract returns)" % (kind.replace("-", " "), len(rej)), span=b.loc, fn=RB)
+    empty = [g for g in oks if not g.get("some") and not g.get("np")]
+    ck.ob(rule, "reject|no-outputs", ok_tab and not any(g.get("applied_deps") or g.get("applied_hash") for g in empty), "a record without outputs applies nothing", span=b.loc, fn=RB)
+    # applied to the producer found, with the deps/hash read from this record
     for bb, t in applies:
         if callee_of(t) == "graph::Hashes::set":
             ide = strip(R.arg(bb, 1))
             he = strip(R.arg(bb, 2))
-            ok = any(y[0] == "downcast" and y[2] == "Some" for y in walk(ide)) and any(c[1] == "db::Reader::read_u64" for c in calls_in(he))
-            ck.ob(rule, "apply|hash-of-this-record", ok, "Hashes::set(id, hash): id is the accumulator's payload, hash is the u64 just read", span=t["loc"], fn=RB)
+            ok = any(y[0] == "field" and y[2] == "input" for y in walk(ide)) and any(c[1] == "db::Reader::read_u64" for c in calls_in(he))
+            ck.ob(rule, "apply|hash-of-this-record", ok, "Hashes::set(id, hash): id is the producer (`file.input`) of the record's outputs, hash is the u64 just read", span=t["loc"], fn=RB)
         else:
-            de = strip(R.arg(bb, 1))
             be = strip(R.arg(bb, 0))
-            ok = any(c[1].endswith("IndexMut<K>>::index_mut") and any(y[0] == "downcast" and y[2] == "Some" for y in walk(c[2][1])) for c in calls_in(be))
-            ck.ob(rule, "apply|deps-on-accepted-build", ok, "set_discovered_ins is applied to builds[<accumulator payload>]", span=t["loc"], fn=RB)
-    # rejection: an output without a producer, or with a different producer, forces the accumulator to None
-    kills = [bi for bi in cfg.reach for s in b.blocks[bi]["stmts"] if s["k"] == "assign" and not s["place"]["p"] and s["place"]["l"] == ubl and (R.stmt_rvalue(bi, s)[0] == "agg" and R.stmt_rvalue(bi, s)[3] == "None")]
-    init_kill = [k for k in kills if cfg.enclosing_loop_header(k) is None]
-    loop_kills = [k for k in kills if cfg.enclosing_loop_header(k) is not None]
-    rej = []
-    for x, t_, scrut, adt, vmap in Q.enum_switches(ctx, b):
-        base, names = field_chain(strip(scrut))
-        if adt == "std::option::Option" and names[-1:] == ["input"]:
-            rej.append(("no-producer", cfg.edge_targets(x, vmap.get("None")), x))
-
-    def pred_same(e):
-        e = strip(e)
-        return e[0] == "call" and e[1].endswith("BuildId as std::cmp::PartialEq>::eq")
-
-    for (x, lab) in C.bool_gate_edges(ctx, b, pred_same):
-        fl = [l for l in Q.bool_edges(b.blocks[x]["term"]) if l != lab][0]
-        rej.append(("other-producer", cfg.edge_targets(x, fl), x))
-    ck.floor("rejection edges in read_build", len(rej), 2)
-    accept_blocks = [x for x, _ in accept]
-    for kind, starts, x in rej:
-        r = cfg.reach_avoid(starts, avoid_blocks=loop_kills)
-        bad = [bb for bb, t in applies if bb in r]
-        ck.ob(rule, "reject|%s" % kind, bool(starts) and not bad, "an output with %s forces the accumulator to None before the record can be applied" % kind.replace("-", " "), span=b.blocks[x]["term"].get("loc"), fn=RB)
-    # once rejected the accumulator cannot become Some again: Some-assignments are gated by `not obsolete` and by accumulator None
-    somes = [bi for bi in cfg.reach for s in b.blocks[bi]["stmts"] if s["k"] == "assign" and not s["place"]["p"] and s["place"]["l"] == ubl and R.stmt_rvalue(bi, s)[0] == "agg" and R.stmt_rvalue(bi, s)[3] == "Some"]
-    flags = [l for l, nm in b.names.items() if b.local_ty(l) == "bool"]
-    ok_flag = False
-    for fl_ in flags:
-        sets = [bi for bi in cfg.reach for s in b.blocks[bi]["stmts"] if s["k"] == "assign" and not s["place"]["p"] and s["place"]["l"] == fl_ and s["rv"]["k"] == "use" and s["rv"]["op"].get("int") == 1]
-        if not sets:
-            continue
-        false_edges = set()
-        from .C01 import _copy_source
-        for sbb, st, e in Q.switches(ctx, b):
-            d = st["discr"]
-            if d["k"] in ("copy", "move") and not d["place"]["p"] and _copy_source(b, sbb, d["place"]["l"]) == fl_:
-                false_edges.add((sbb, Q.bool_edges(st)[1]))
-        # every rejection sets the flag before the next iteration; every Some-assignment is under flag == false
-        all_set = all(cfg.enclosing_loop_header(x) not in cfg.reach_avoid(st_, avoid_blocks=sets) for _, st_, x in rej)
-        gated = bool(somes) and all(Q.gated(cfg, s_, false_edges)[0] for s_ in somes)
-        ok_flag = ok_flag or (all_set and gated)
-    ck.ob(rule, "reject|sticky", ok_flag, "after a rejection a flag is set and the accumulator is only assigned Some(..) while that flag is false", span=b.loc, fn=RB)
-    # Some(bid) is the producer of the output just read, taken only when nothing was accumulated yet
-    for s_ in somes:
-        for st in b.blocks[s_]["stmts"]:
-            if st["k"] == "assign" and not st["place"]["p"] and st["place"]["l"] == ubl:
-                e = strip(R.stmt_rvalue(s_, st))
-                okp = any(field_chain(strip(y))[1][-2:] == ["input", "as Some"] or "input" in field_chain(strip(y))[1] for y in walk(e) if y[0] in ("field", "downcast"))
-                ck.ob(rule, "accumulate|producer-of-output", okp and Q.gated(cfg, s_, {(x, lab) for (x, lab) in none_e if cfg.enclosing_loop_header(x) is not None})[0], "the accumulator is first set to the producer of the output just read, only while it is still None", span=st.get("loc"), fn=RB)
+            ok = any(c[1].endswith("IndexMut<K>>::index_mut") and any(y[0] == "field" and y[2] == "input" for y in walk(c[2][1])) for c in calls_in(be))
+            ck.ob(rule, "apply|deps-on-accepted-build", ok, "set_discovered_ins is applied to builds[<producer of the record's outputs>]", span=t["loc"], fn=RB)
     # every id of the record is consumed even when obsolete
     ids = [bb for bb, t in b.calls() if callee_of(t) == "db::Reader::read_id"]
     for i, bb in enumerate(ids):
